@@ -337,6 +337,10 @@ def run_property(spec: PropertySpec, tier: str, seed: int) -> int:
     gen_ok, gen_log = (True, '')
     if spec.gen:
         gen_ok, gen_log = spec.gen()
+    notes_changed: list[str] = []
+    if spec.gen and getattr(spec.gen, 'slices', None):
+        from . import formulas
+        notes_changed = formulas.changed_notes(spec.gen.slices)
     build_ok, build_log = lake_build(spec.modules + ['driver'])
     # 2. audit
     forb = grep_forbidden(spec.modules)
@@ -395,7 +399,7 @@ def run_property(spec: PropertySpec, tier: str, seed: int) -> int:
     corr_only = [f for f in outcome.failures if f.kind == 'correspondence']
     prop_fail = [f for f in outcome.failures if f.kind == 'property']
     searched = False
-    if (not proof_ok or corr_only) and not [f for f in prop_fail if not is_known(f)] and crashed is None:
+    if (not proof_ok or corr_only or notes_changed) and not [f for f in prop_fail if not is_known(f)] and crashed is None:
         searched = True
         try:
             more = spec.run(tier, seed + 7919, 10)
@@ -422,6 +426,9 @@ def run_property(spec: PropertySpec, tier: str, seed: int) -> int:
         if k['id'] in known_hit:
             lines.append(f'KNOWN-FINDING: property={pid} {k["what"]} [{k["id"]}, {known_hit[k["id"]]} case(s)]')
 
+    if notes_changed:
+        lines.append(f'STRUCTURE-NOTE property={pid} the array code around a translated slice is written differently than when the check was built '
+                     f'({", ".join(notes_changed)}); the failing-input search ran with the enlarged budget')
     violations = 0
     rc = 0
     if unknown:
@@ -471,6 +478,7 @@ def run_property(spec: PropertySpec, tier: str, seed: int) -> int:
         'failing_input_search_ran': searched,
         'known_findings_hit': known_hit,
         'broken_obligation': broken_obligation,
+        'structure_notes_changed': notes_changed,
     }
     cov.update(outcome.extra)
     level = 'proof'
